@@ -5,3 +5,4 @@
 ; HashTableHeaderPage.NumBlocks / GetBlockPageID)
 (declare-fun hnb (Int) Int)
 (declare-fun hblk (Int Int) Int)
+(declare-fun pgid (Int) Int)
